@@ -291,7 +291,9 @@ class UnitStore(object):
         assert isinstance(quantity, self._registry.Quantity)
         assert isinstance(unit, self._registry.Unit)
         #  Trying to convert FROM dimensionless gives an error but we can convert TO it
-        if quantity.units == self._registry.dimensionless:
+        #  (only when the target has no dimension either: anything else must go through pint, so that conversion
+        #  rules apply in the direction they were registered)
+        if quantity.units == self._registry.dimensionless and unit.dimensionality == quantity.units.dimensionality:
             factor = 1 / (1 * unit).to(quantity.units).magnitude
             return self._registry.Quantity(quantity.magnitude * factor, unit)
         return quantity.to(unit)
